@@ -180,7 +180,7 @@ Definition obs_b (x : out bool) : obs := observe (omap PBool x).
 Definition c_parse (k : ccase) : obs := let '(t, v, _, _) := k in observe (call_type RE (fun _ => None) 30 default_options t v).
 Definition c_inst (k : ccase) : obs := let '(t, v, _, _) := k in obs_b (instancecheck RE (fun _ => None) 30 default_options t v).
 Definition case_ok (k : ccase) : bool :=
-  let '(_, _, e1, e2) := k in obs_eqb (c_parse k) e1 && obs_eqb (c_inst k) e2.
+  let '(_, _, e1, e2) := k in obs_sim (c_parse k) e1 && obs_sim (c_inst k) e2.
 Definition case_skip (k : ccase) : bool := obs_is_skip (c_parse k) || obs_is_skip (c_inst k).
 """
 
